@@ -7,11 +7,11 @@
 EXTENDS MetricsCount, Json
 VARIABLES done, kind
 Kinds == {"Open", "Auth", "Probe", "Close", "NatAdd", "PktC", "PktT", "NatRemove", "Scrape"}
-Do(k) == CASE k = "Open"   -> \E c \in Conns : Open(c)
+Do(k) == CASE k = "Open"   -> \E c \in Conns, x \in Locs : Open(c, x)
            [] k = "Auth"   -> \E c \in Conns, q \in Keys : Auth(c, q)
            [] k = "Probe"  -> \E c \in Conns, b \in Amounts : Probe(c, b)
            [] k = "Close"  -> \E c \in Conns, s \in 1..NST, d \in [Dirs -> Amounts] : Close(c, s, d)
-           [] k = "NatAdd" -> \E c \in Conns, q \in Keys : NatAdd(c, q)
+           [] k = "NatAdd" -> \E c \in Conns, q \in Keys, x \in Locs : NatAdd(c, q, x)
            [] k = "PktC"   -> \E c \in Conns, s \in 1..NSU, n \in Counts, cp \in Amounts, pt \in Amounts : PktC(c, s, n, cp, pt)
            [] k = "PktT"   -> \E c \in Conns, n \in Counts, tp \in Amounts, pc \in Amounts : PktT(c, n, tp, pc)
            [] k = "NatRemove" -> \E c \in Conns : NatRemove(c)
